@@ -2,6 +2,7 @@ package core
 
 import (
 	"fmt"
+	"strings"
 
 	"verifsim/simrt"
 )
@@ -70,6 +71,14 @@ func RunOne(sc *Scenario, seed uint64, o RunOpts) *Outcome {
 			}
 		}
 		out.Violation = &simrt.Violation{Oracle: or, Msg: fmt.Sprintf("panic in task %s: %s\n%s", p.Task, p.Value, p.Stack), Step: s.Steps()}
+	case strings.Contains(s.StalledString(), "main@") && !s.Trunc:
+		// the scenario's driver never returned: it is blocked inside a library
+		// call that cannot block by contract, and nothing can wake it
+		or := "HARNESS.main-stalled"
+		if ctx != nil {
+			or = ctx.blockedOracle()
+		}
+		out.Violation = &simrt.Violation{Oracle: or, Msg: "the run ended (no runnable task, no timer) while the driver is blocked inside a library call: " + s.StalledString(), Step: s.Steps()}
 	case s.SpinHit != "":
 		or := "HARNESS.spin"
 		if ctx != nil && ctx.SpinOracle != "" {
